@@ -116,6 +116,11 @@ def blob_bytes(blob, size):
         out[1] = 0x00
     if size >= 4:
         out[2] = 0xFF
+    if size >= 4 and int(hashlib.md5(blob.encode()).hexdigest(), 16) % 3 == 0:
+        # every third blob starts like a text file saved with a byte order mark: bytes like any other inside an archive
+        out[0:3] = b"\xEF\xBB\xBF"
+        if size >= 6:
+            out[3], out[4] = 0x00, 0xFF
     if size >= 2 and out[-1] == 0:
         out[-1] = 0x5A
     return bytes(out)
@@ -410,7 +415,7 @@ def run(rep, tier, seed, replay):
         "faults: Truncate(n) for every n < file length (for the larger archives the structural points: around the borders of every "
         "record, around the NUL behind keys and names, around the size field, and 255..257 bytes into a record), CorruptLen of every entry's data-size field by the listed deltas, "
         "Absent; arbitrary byte corruption outside the size fields is not generated",
-        "entry contents are binary (contain 0x00 and 0xFF), pairwise different and never end in 0x00; TLC treats them as opaque "
+        "entry contents are binary (contain 0x00 and 0xFF; every third starts with the bytes EF BB BF), pairwise different and never end in 0x00; TLC treats them as opaque "
         "texts (hex of the packed bytes) - byte fidelity is decided by equality of these texts",
         "Faithful is asserted for the virtual file system only when the archive has a non-empty prefix property; loadFile is asked "
         "for \\<prefix>\\<name with backslashes>",
